@@ -187,8 +187,9 @@ PROPS = {
     "C08": {
         "title": "Old signer sets stay valid for exactly the configured number of rotations",
         "policy": {"guards": ["retention", "latest_or_bypass"], "fields": [], "events": [], "rets": ["ValidateProof"],
-                   # "is honoured while at most the configured retention number of newer sets have been installed"
-                   "complete_actions": ["ApproveMessages", "ValidateProof"]},
+                   # "is honoured while at most the configured retention number of newer sets have been installed":
+                   # a proof signed by EVERY member of a retained set must be accepted (which subsets suffice is C01's)
+                   "complete_actions": ["ApproveMessages", "ValidateProof"], "complete_when": "full_proof"},
         "jobs": [
             {"kind": "graph", "spec": "MC_C08", "cfg": "MC_C08_r%s" % r, "module": "Gateway", "evkinds": GW_EVENTS,
              "need": ["ApproveMessages/ok", "RotateSigners/ok", "ValidateProof/ok"] + ([] if r in ("9", "max", "max1") else ["ApproveMessages/retention", "RotateSigners/retention"]),
